@@ -180,3 +180,6 @@ def ann_any(a: Any, b):
 
 def unannotated(a, b):
     return a
+
+
+NOT_A_FUNCTION = 3
